@@ -40,6 +40,10 @@ class Plan(object):
         self.run_index = int(program.get("run_index", 0))
         self.registered_cleanups = []   # (id, owner-layer)
         self.ran_scenarios = []  # Scenario objects handed to before_scenario (the objects that RAN)
+        # hooks READ the status of their element (and of the enclosing ones) before doing anything else --
+        # the usual `if scenario.status == Status.failed: take_screenshot()` idiom; reading must not
+        # change any outcome
+        self.peek = bool(program.get("peek"))
 
 
 _EXC = {"Exception": RuntimeError, "AssertionError": AssertionError, "KeyboardInterrupt": KeyboardInterrupt}
@@ -70,6 +74,13 @@ def make_hooks(plan):
             plan.hooks.append((name, ident))
             if name == "before_scenario":
                 plan.ran_scenarios.append(args[0])
+            if plan.peek:
+                for attr in ("scenario", "rule", "feature"):
+                    elem = getattr(context, attr, None)
+                    if elem is not None:
+                        elem.status     # noqa: read only
+                if args and hasattr(args[0], "status"):
+                    args[0].status      # noqa: read only
             for obs in plan.observers:
                 obs("hook", name, context, args[0] if args else None)
             for c in plan.hook_cleanups.get(k, ()):
